@@ -17,6 +17,13 @@ import (
 func init() {
 	Register(&Scenario{Prop: "C16", Name: "kv-history", Strict: true, Quick: 10, Thorough: 10, Run: runC16History})
 	Register(&Scenario{Prop: "C16", Name: "exclusive-race", Strict: true, Quick: 6, Thorough: 8, Run: runC16Race})
+	// the same race with one or two disk errors (EIO, short write + ENOSPC, failing close) on the writers' file writes:
+	// a writer may fail, and may retry after its back-off, but never do two writers win, and a winner's bytes are the key's
+	Register(&Scenario{Prop: "C16", Name: "exclusive-race-disk-errors", Strict: true, Quick: 3, Thorough: 4, Run: func(rc *RunCtx) *simkit.Violation {
+		c16RaceFaulty = true
+		defer func() { c16RaceFaulty = false }()
+		return runC16Race(rc)
+	}})
 }
 
 // kvListing is the reference listing: exact prefix, delimiter roll-up, lexicographic, each item once.
@@ -313,6 +320,8 @@ func c16History(prop string, w *simkit.World, t *simkit.Tape, st storage.Store, 
 
 // runC16Race: several writers create the same key with create-if-absent, every file-system call of each
 // writer being a scheduling point: exactly one wins and its bytes are what is read afterwards.
+var c16RaceFaulty bool
+
 func runC16Race(rc *RunCtx) *simkit.Violation {
 	const prop = "C16"
 	w := rc.W
@@ -345,7 +354,12 @@ func runC16Race(rc *RunCtx) *simkit.Violation {
 			return nil, st.Put(bg, key, src, storage.NoOverWrite)
 		}))
 	}
-	w.Note("%d concurrent create-if-absent Put(%q) over %s, retry=%v", k, key, map[bool]string{true: "OsFs(tmp)", false: "MemMapFs"}[osDisk], retry)
+	if c16RaceFaulty {
+		w.Faults = &simkit.FaultCfg{Err: 200, Torn: 150, Budget: t.Range(1, 2), Eligible: func(c *simkit.Call) bool {
+			return c.Disk != nil && (c.Op == simkit.OpFsWrite || c.Op == simkit.OpFsClose || c.Op == simkit.OpFsSync)
+		}}
+	}
+	w.Note("%d concurrent create-if-absent Put(%q) over %s, retry=%v, disk errors=%v", k, key, map[bool]string{true: "OsFs(tmp)", false: "MemMapFs"}[osDisk], retry, c16RaceFaulty)
 	if v := w.Run(); v != nil {
 		v.Property = prop
 		return v
@@ -358,6 +372,11 @@ func runC16Race(rc *RunCtx) *simkit.Violation {
 		if tk.Err == nil {
 			winners = append(winners, i)
 		}
+	}
+	w.Faults = nil
+	if c16RaceFaulty && fired(w) && len(winners) == 0 {
+		w.Probe("nobody-won-under-disk-errors")
+		return nil
 	}
 	if len(winners) != 1 {
 		return Viol(prop, "exclusive-put-not-exclusive", "Put-NoOverWrite", key, "%d of %d concurrent create-if-absent writers of %q succeeded (%v)", len(winners), k, key, winners)
